@@ -53,6 +53,8 @@ type c16Opts struct {
 	// time after the world (and its stores) were built
 	Idle  int
 	Later time.Duration
+	// MovingDiscovery: the provider's discovery document differs at every fetch (and is served with max-age=1)
+	MovingDiscovery bool
 }
 
 type c16World struct {
@@ -171,6 +173,9 @@ func newC16World(o c16Opts) *c16World {
 		_, _ = ctl.Reconcile(context.Background(), ctrl.Request{NamespacedName: types.NamespacedName{Namespace: "default", Name: "s1"}})
 	}
 	hosts[w.host] = world.CannedIdP(base, w.answers)
+	if o.MovingDiscovery {
+		hosts[w.host] = world.CannedIdPMoving(base, w.answers)
+	}
 	if o.Proxy {
 		oc.ProxyUri = "http://proxy.test:3128"
 		hosts["proxy.test"] = world.CannedIdP(base, w.answers) // the proxy hands the (absolute-form) request to the provider
@@ -181,6 +186,10 @@ func newC16World(o c16Opts) *c16World {
 	// channel orders ServeContext's start-up reads of the configuration before everything the threads do
 	_, _ = jwks.Get(context.Background(), &oidcv1.OIDCConfig{JwksConfig: &oidcv1.OIDCConfig_JwksFetcher{
 		JwksFetcher: &oidcv1.OIDCConfig_JwksFetcherConfig{JwksUri: "http://startup.idp.test/jwks"}}})
+	if o.MovingDiscovery {
+		// the provider has been in use (its document is cached) before the threads start
+		_, _ = w.filter.Check(context.Background(), w.prepare("nocookie", 98))
+	}
 	if o.CAFile && o.TwoProviders {
 		// provider a has been in use (its TLS settings are loaded and its CA file is watched) before the threads start
 		_, _ = w.filter.Check(context.Background(), w.prepare("nocookie", 99))
@@ -220,7 +229,7 @@ func (w *c16World) prepare(kind string, k int) *envoy.CheckRequest {
 	path := "/app"
 	cookie := "__Host-authservice-session-id-cookie=" + sid
 	switch kind {
-	case "nocookie", "nocookie-b":
+	case "nocookie", "nocookie-b", "later-nocookie":
 		cookie = ""
 	case "fresh":
 		_ = w.store().SetTokenResponse(ctx, sid, &oidc.TokenResponse{IDToken: w.idToken("", time.Now().Add(time.Hour)), AccessToken: "at", RefreshToken: "rt-" + sid,
@@ -461,7 +470,11 @@ func c16Scenario(name string, o c16Opts, kinds []string, bound int) schedx.Scena
 					} else {
 						t.Req = w.prepare(kind, i)
 					}
+					later := strings.HasPrefix(k, "later-")
 					bodies[i] = func() {
+						if later {
+							vtime.Shift(time.Hour) // this request arrives an hour after the others were built and started
+						}
 						resp, err := w.filter.Check(context.Background(), t.Req)
 						if err != nil {
 							t.Code = "error:" + firstLine(err.Error())
@@ -521,6 +534,7 @@ func c16Scenarios(tier string) []schedx.Scenario {
 			c16Scenario("S6 redis: callback||callback", c16Opts{Redis: true, Logout: true}, []string{"callback", "callback"}, b),
 			c16Scenario("S6 redis: callback||refresh", c16Opts{Redis: true, Logout: true}, []string{"callback", "refresh"}, b),
 			c16Scenario("S8 session time-outs, two minutes after start-up: nocookie||callback", c16Opts{Logout: true, Idle: 3600, Later: 2 * time.Minute}, []string{"nocookie", "callback"}, b),
+			c16Scenario("S2 discovery document that has moved, seen again an hour later: nocookie||later+nocookie", c16Opts{Discovery: true, Logout: true, MovingDiscovery: true}, []string{"nocookie", "later-nocookie"}, b),
 		}
 	}
 	scs := mk(1) // function-entry + lock points, one pre-emption
